@@ -20,7 +20,7 @@ def plans(ctx):
         menu = [("k2a", [1, 2, 3, L], 1, 64), ("k2a", [L], 2, 10), ("k2b", [1, 2, L], 1, 10), ("k2m1", [1, 2, 3, L], 1, 64),
                 ("k2m1", [L], 2, 10), ("k2vec", [1, 2, L], 1, 64), ("k2mat", [1, L], 1, 10), ("k2w3", [2, L], 1, 10),
                 ("k3a", [1, 2, L], 1, 10), ("k3b", [L], 0, 10), ("k2seed", [1, 2, L], 1, 64), ("k2big", [1, 2, L], 1, 10),
-                ("k2eps2", [L], 1, 10), ("k2e5", [L], 1, 10)]
+                ("k2eps2", [L], 1, 10), ("k2e5", [L], 1, 10), ("k2one", [3, L], 1, 10)]
     else:
         menu = [("k2a", [1, 2, 3, L], 1, 10), ("k2m1", [1, 2, L], 1, 10), ("k2vec", [2, L], 1, 10),
                 ("k2seed", [1, L], 1, 10), ("k3a", [L], 0, 10)]
@@ -32,15 +32,88 @@ def plans(ctx):
     return out
 
 
+# ---------------------------------------------------------------- control skeleton over scripted relabel outputs
+SK_ALPHA = {"A": [0, 0, 0, 0, 1, 1, 1, 1], "B": [0, 0, 0, 1, 1, 1, 1, 1], "E": [0] * 8,
+            "S": [0] * 7 + [1], "F": [1, 1, 0, 0, 0, 0, 0, 0]}
+SK_INIT = (0, 0, 1, 1, 0, 0, 1, 1)
+
+
+@ml.driver("skel")
+def _skel(seed):
+    return ml.Driver("skel", [ml.two_regime_series(9, 1, 3)], W=2, K=2, beta=1.0, m=2, biased=True)
+
+
+def work_skeleton(task):
+    """The relabel phase's OUTPUT is an environment answer here: the real phase runs, then its labelling is
+    replaced by the next scripted one.  Every sequence over a 5-labelling alphabet (balanced, shifted, one
+    cluster empty, singleton, other balanced) up to the iteration limit is run through the real main loop, so
+    the loop's decisions (when to stop, when to repopulate, what to return) are explored exhaustively and
+    independently of what the data would make the relabel phase produce."""
+    from vlib import lib
+    from vlib.ctx import Acc, stopped
+    import itertools
+    lib.load("nojit")
+    from checks.c03 import memoise_solver
+    memoise_solver()
+    (limit, firsts, draws) = task
+    acc = Acc()
+    d = ml.get_driver("skel", 0)
+    names = sorted(SK_ALPHA)
+    for first in firsts:
+        for rest in itertools.product(names, repeat=limit - 1):
+            if stopped():
+                return acc.result()
+            seq = (first,) + rest
+            script = [SK_ALPHA[x] for x in seq] + [SK_ALPHA[seq[-1]]] * 2     # lets an over-running loop run on
+            for draw in draws:
+                from vlib.seams import TRACER
+                TRACER.sampler.default_mode = draw
+                try:
+                    rec = ml.real_run(d, SK_INIT, limit, (), entry="fit", relabel_script=script)
+                finally:
+                    TRACER.sampler.default_mode = "first"
+                acc.n += 1
+                case = {"kind": "skeleton", "limit": limit, "sequence": list(seq), "draw": draw}
+                if rec.error is not None:
+                    acc.count("skeleton_raised", type(rec.error).__name__)
+                    continue
+                n, _ = ml.final_round(rec)
+                acc.count("skeleton_rounds", n)
+                if len(set(seq)) > 1:
+                    acc.nontrivial += 1
+                # reference loop on the scripted outputs
+                want = limit
+                for r in range(1, limit):
+                    if seq[r] == seq[r - 1]:
+                        want = r + 1
+                        break
+                for (msg, sig) in ml.MONITORS["C09"](rec):
+                    acc.fail(case, f"relabel outputs {list(seq)}, limit {limit}: " + msg, sig)
+                got = tuple(ml.stacked_labels(rec))
+                if n <= limit and n >= 1 and got != tuple(SK_ALPHA[seq[n - 1]]):
+                    acc.fail(case, f"relabel outputs {list(seq)}, limit {limit}: returned labels {got} are not round {n}'s output")
+                if n > want:
+                    acc.count("skeleton_ran_past_fixed_point")      # allowed by the statement, reported only
+    acc.sample({"kind": "skeleton", "limit": limit, "first": list(firsts), "alphabet": SK_ALPHA})
+    return acc.result()
+
+
 def run(ctx):
     from vlib import lib
     lib.load("nojit")
+    top = 6 if ctx.thorough else 4
+    sk = [(limit, [f], ("first", "last")) for limit in range(1, top + 1) for f in sorted(SK_ALPHA)]
+    for r in ctx.pmap(work_skeleton, sk):
+        ctx.take(r)
     ps = plans(ctx)
     ml.explore(ctx, ps)
     ctx.cov["drivers"] = [ml.get_driver(p["driver"], ctx.seed).describe() | {"limits": p["limits"],
                           "donor_deviation_bound": p["bound"], "subset_cap": p["subset_cap"], "initial_labellings": len(p["inits"])} for p in ps]
     ctx.cov["exhaustive"] = True
     ctx.cov["rule"] = (
+        "control skeleton: the relabel phase's output replaced by a scripted labelling - every sequence over "
+        "{balanced, shifted, one cluster empty, singleton, other balanced} of length = iteration limit 1.." + str(top) +
+        " x donor draw {first, last} through the real main loop (stop rule, repopulation timing, what is returned); "
         "evaluations = complete real runs of fit_stacked_data (every initial labelling x limit x donor "
         "script with at most `donor_deviation_bound` non-default draws; all C(n,m) subsets per draw when "
         "<= subset_cap, else first/last/alternating m); states = distinct (labelling, donor-ranking spreads) reached; transitions = applications "
@@ -53,4 +126,9 @@ def run(ctx):
 
 
 def replay(ctx, case):
+    if case.get("kind") == "skeleton":
+        from vlib import lib
+        lib.load("nojit")
+        ctx.take(work_skeleton((case["limit"], [case["sequence"][0]], (case["draw"],))))
+        return
     ml.replay_case(ctx, case, MONS, conform=True)
